@@ -2,6 +2,38 @@
 from pyvc.rt import *  # noqa: F401,F403
 
 PROPERTY = "C03"
+SR = "synkit/Synthesis/Reactor/syn_reactor.py"
 CLASSES = {}
-FUNCTIONS = {}
-BOUNDED_ONLY = True
+TRUSTED = ["A-builtins (tuples as values; slices with constant bounds)"]
+ASSUMPTIONS = ["only the per-atom merge step is under contract; matching, edge merging, explicit-hydrogen rendering and SMILES output are decided by the bounded twin"]
+
+
+def tgh_ok(t):
+    """a typesGH descriptor: two 5-tuples (element, aromatic, hcount, charge, neighbours) with integer hydrogen counts"""
+    return isinstance(t, tuple) and isinstance(t[0], tuple) and isinstance(t[1], tuple) and len(t) == 2 and len(t[0]) == 5 and len(t[1]) == 5 and isinstance(t[0][2], int) and isinstance(t[1][2], int) \
+        and not isinstance(t[0][2], bool) and not isinstance(t[1][2], bool)
+
+
+FUNCTIONS = {
+    # merging a template atom onto a substrate atom: the reactant side stays the substrate's, the product side gets exactly the
+    # template's hydrogen change and the template's product charge; element and aromaticity are never taken from the template
+    SR + "::SynReactor._node_glue": {
+        "static": True,
+        "params": {"host_n": "dict[str,any]", "pat_n": "dict[str,any]", "key": "const:'typesGH'"},
+        "returns": "none",
+        "requires": ["'typesGH' in host_n and 'typesGH' in pat_n", "tgh_ok(host_n['typesGH'])", "tgh_ok(pat_n['typesGH'])",
+                     "pat_n['typesGH'][0][0] != '*' and pat_n['typesGH'][1][0] != '*'"],
+        "modifies": [], "mutates": ["host_n"],
+        "ensures": [
+            "same(host_n['typesGH'][0], old(host_n['typesGH'][0]))",
+            "same(host_n['typesGH'][1][0], old(host_n['typesGH'][1][0])) and same(host_n['typesGH'][1][1], old(host_n['typesGH'][1][1]))",
+            "host_n['typesGH'][1][2] == old(host_n['typesGH'][0][2]) - (pat_n['typesGH'][0][2] - pat_n['typesGH'][1][2])",
+            "same(host_n['typesGH'][1][3], pat_n['typesGH'][1][3])",
+            "same(host_n['typesGH'][1][4], old(host_n['typesGH'][1][4]))",
+            "len(host_n['typesGH']) == 2 and len(host_n['typesGH'][0]) == 5 and len(host_n['typesGH'][1]) == 5",
+            "forall('str', lambda k: implies(k != 'typesGH' and k != 'h_pairs', (k in host_n) == old(k in host_n) and same(host_n.get(k), old(host_n.get(k)))))",
+            "implies('h_pairs' in pat_n, same(host_n['h_pairs'], pat_n['h_pairs']))",
+            "implies('h_pairs' not in pat_n, ('h_pairs' in host_n) == old('h_pairs' in host_n) and same(host_n.get('h_pairs'), old(host_n.get('h_pairs'))))",
+        ],
+    },
+}
